@@ -119,6 +119,32 @@ class EvalMixin(CallMixin):
                 self.heap[qual] = v
                 self.heap[key] = v
                 return v
+            if v is NotImplemented and isinstance(ce, ast.Call) and not getattr(self, "_in_modconst", False):
+                # NAME = RepoClass(...) / repo_function(...) at module level: built once, shared by everything that names it
+                cq = repo.resolve_expr(cm, ce.func)
+                r2 = repo.lookup(cq) if cq else None
+                if r2 is not None and r2[0] in ("class", "func") and not (r2[0] == "class" and repo.is_enum(r2[1].qual)):
+                    from .interp import Frame, _Signal
+                    from .repo import FuncInfo
+
+                    key = repo.canon(target)
+                    fn = ast.FunctionDef(name="<module>", args=ast.arguments(posonlyargs=[], args=[], kwonlyargs=[], kw_defaults=[], defaults=[]),
+                                         body=[], decorator_list=[], lineno=1)
+                    tmp = Frame(FuncInfo(cm.name, fn, cm, None, None), None, fr.depth)
+                    tmp.declared = set()
+                    self._in_modconst = True
+                    n_eff = len(self.effects)
+                    try:
+                        v2 = self.eval(ce, tmp)
+                    except _Signal:
+                        v2 = NotImplemented
+                    finally:
+                        self._in_modconst = False
+                        del self.effects[n_eff:]  # import-time effects are not effects of the analysed function
+                    if v2 is not NotImplemented:
+                        self.heap[qual] = v2
+                        self.heap[key] = v2
+                        return v2
             return v if v is not NotImplemented else Sym(repo.canon(target))
         return Sym(target)
 
@@ -171,6 +197,8 @@ class EvalMixin(CallMixin):
                 return NotImplemented
             r = self.repo.lookup(q)
             if r is None:
+                if "." in q and q.split(".")[0] not in ("cascade", "earthkit"):
+                    return Sym(q)  # a name from an external module (operator.add, numpy.float32, ...): an opaque but stable reference
                 return NotImplemented
             kind, obj = r
             if kind == "class":
